@@ -149,7 +149,32 @@ func script(key string, src, rd, status int, hdrs [][2]string, pieces [][]byte, 
 	return hv.L{hv.S(key), hv.I(src), hv.I(rd), hv.I(status), hs, ps, hv.I(errf)}
 }
 
+// statusLine caches one line per (status, HTTP/1.0 | HTTP/1.1): pipelines that alternate the two versions with one
+// status (known and unknown codes), both orders.
+func genVersions(r *hv.Rng) (string, hv.Val) {
+	status := []int{200, 404, 500, 299, 201, 403}[r.Intn(6)]
+	first := r.Intn(2)
+	n := 2 + r.Intn(3)
+	reqs, scripts := hv.L{}, hv.L{}
+	for k := 0; k < n; k++ {
+		id := fmt.Sprintf("r%d", k)
+		minor := (first + k) % 2
+		hd := fmt.Sprintf("GET /v/%d HTTP/1.%d\r\nHost: example.org\r\nX-Verif-Id: %s\r\nX-Verif-Spec: %s\r\n", k, minor, id, id)
+		if minor == 0 {
+			hd += "Connection: keep-alive\r\n"
+		}
+		hd += "\r\n"
+		reqs = append(reqs, hv.L{hv.S(hd), hv.S(id), hv.I(0), hv.I(0), hv.I(0)})
+		body := []byte("resp-" + id)
+		scripts = append(scripts, script(id, 0, 0, status, [][2]string{{"Date", h1x2.FixedDate}, {"Content-Length", fmt.Sprint(len(body))}}, [][]byte{body}, 0))
+	}
+	return "versions-alternate", hv.L{reqs, scripts}
+}
+
 func gen(r *hv.Rng, i int, tier string) (string, hv.Val) {
+	if i%9 == 4 {
+		return genVersions(r)
+	}
 	n := 1 + r.Intn(6)
 	reqs, scripts := hv.L{}, hv.L{}
 	scripts = append(scripts, script("evil", 0, 0, 200, [][2]string{{"Date", h1x2.FixedDate}}, [][]byte{[]byte("evil")}, 0))
